@@ -1,12 +1,176 @@
-(* C07 (work in progress: statements are added as their lemmas are proved) *)
+(* C07  A name is probed three times before it is announced, then announced twice.
+   Only statements here; every proof is `exact <lemma>`.
+
+   Model: Model/Registry.v (Probe, DnsRegistry, check_probing, handle_expired_probes,
+   tiebreaking, conflict renaming) and Model/RegistryDaemon.v (prepare_announce, the status
+   guards of handle_query).  The registry of one interface is a machine of operations
+     OTick                 one pass of the probing handler (check_probing + handle_expired_probes)
+     OJoin r svc j         is_probing_done for record r with start_time = now + j  (registration)
+     OTiebreak n incoming  Probe::tiebreaking against a competing probe
+     OConflict ans j       conflict_handler for one answer, new probes start at now + j
+   applied at arbitrary nondecreasing times; run_ops gives, per operation, the names a probe
+   query was sent for and the names that became active.  The daemon model performs exactly these
+   operations on its registries (C07_registration_is_joins; the other call sites are the same
+   functions by definition). *)
 From Coq Require Import List NArith Bool.
-From Mdns Require Import ParamsRegistry RegistryParamsPinned.
+From Mdns Require Import Bytes Rec ParamsRegistry Names WireOut Registry RegistryDaemon RegistrySpec
+     RegistryParamsPinned RegistryProofs RegistryDaemonProofs RegistryLiftProofs RegistryWitnesses RegistryWitnessProofs.
+Import ListNotations.
 Open Scope N_scope.
 
+(* The numbers and comparison directions, regenerated from the Rust sources on every run
+   (Gen/ParamsRegistry.v): next probe 250 ms later, done when now >= start + 750, a probe is due
+   when now >= next_send, jitter drawn from 0..250, second announcement 1000 ms later. *)
 Theorem C07_constants :
   (forall now, probe_next_send now = now + 250) /\
   (forall start now, probe_expired start now = (start + 750 <=? now)) /\
-  (forall next now, probe_due next now = (next <=? now)).
-Proof. exact (conj probe_next_send_pinned (conj probe_expired_pinned probe_due_pinned)). Qed.
+  (forall next now, probe_due next now = (next <=? now)) /\
+  jitter_bound_announce = 250 /\
+  (forall now, announce_repeat_probing now = now + 1000) /\ announce_repeat_register = 1000.
+Proof. exact c07_constants. Qed.
+
+(* ALL SCHEDULES.  For EVERY sequence of operations - registrations, probing passes, lost
+   tie-breaks, conflicts, in any order - at EVERY sequence of nondecreasing times (late or early
+   wake-ups alike), and every name n: each probe query for n and each activation of n comes at
+   least 250 ms after the previous probe query for n. *)
+Theorem C07_probe_spacing_all_schedules : forall ops n t0,
+  times_from t0 ops -> spaced_250 n None (run_ops reg_new ops).
+Proof. exact probe_spacing_all_schedules_proof. Qed.
+
+(* ... in particular the times of the probe queries for a name are pairwise 250 ms apart. *)
+Theorem C07_probe_times_250_apart : forall ops n t0,
+  times_from t0 ops -> gaps_250 (probe_times n (run_ops reg_new ops)).
+Proof. exact probe_times_gaps. Qed.
+
+(* THE SAME ON THE WIRE, FOR EVERY HISTORY OF THE DAEMON MODEL: whatever the interface table
+   (without repeated indexes), the datagrams delivered, the API calls, the jitter values and the
+   (nondecreasing) iteration times, the iterations that put a probe query for name n on
+   interface k are at least 250 ms apart.  (wire_probe_times reads the question names of the
+   query packets the model's iterate emits.) *)
+Theorem C07_wire_probe_spacing : forall ifs its t0 k n,
+  NoDup (map if_index ifs) -> iter_times_from t0 its ->
+  gaps_250 (wire_probe_times k n (d_init ifs) its).
+Proof. exact wire_probe_spacing. Qed.
+
+(* A name becomes active in a probing pass only if its probe's start time lies at least 750 ms
+   back (and its next_send has come) - again for every state and every time. *)
+Theorem C07_activation_needs_750 : forall rg now rg' qs ex n,
+  NoDup (keys (rg_probing rg)) -> tick_names rg now = (rg', qs, ex) -> In n ex ->
+  exists p, aget n (rg_probing rg) = Some p /\ pb_start p + 750 <= now /\ pb_next p <= now.
+Proof. exact activation_needs_750. Qed.
+
+(* (the hypothesis holds in every reachable registry: one probe per name) *)
+Theorem C07_reachable_one_probe_per_name : forall ops t0,
+  times_from t0 ops -> NoDup (keys (rg_probing (final_reg reg_new ops))).
+Proof. exact reachable_nodup. Qed.
+
+(* TIMER-EXACT.  A probe in its initial state (start_time = next_send = T, as registration
+   creates it) under probing passes that are never late for it (each pass happens no later than
+   the probe's next_send; extra earlier passes are allowed): the probe queries go out at a
+   prefix of T, T+250, T+500, and the name is activated, if at all, at T+750 after all three. *)
+Theorem C07_three_probes_exact : forall n T ts rg t0,
+  NoDup (keys (rg_probing rg)) -> phase rg n T 0 ->
+  times_from t0 (ticks ts) -> never_late_for n rg ts ->
+  exists j, (j <= 3)%nat /\
+    probe_times n (run_ops rg (ticks ts)) = firstn j [T; T + 250; T + 500] /\
+    (activation_times n (run_ops rg (ticks ts)) = [] \/
+     (j = 3%nat /\ activation_times n (run_ops rg (ticks ts)) = [T + 750])).
+Proof. exact three_probes_exact_lemma. Qed.
+
+(* Woken exactly at the times it asked for: three probe queries at T, T+250, T+500, active at T+750. *)
+Theorem C07_three_probes_exact_full : forall rg n T,
+  NoDup (keys (rg_probing rg)) -> phase rg n T 0 ->
+  probe_times n (run_ops rg (ticks [T; T + 250; T + 500; T + 750])) = [T; T + 250; T + 500] /\
+  activation_times n (run_ops rg (ticks [T; T + 250; T + 500; T + 750])) = [T + 750].
+Proof. exact exact_full. Qed.
+
+(* REACHES THE ACTIVE STATE.  A record registered at `now` under jitter j < 250 whose name is
+   neither held nor being probed starts a probe at T = now + j; woken when asked, the name is
+   active at T + 750, less than 250 + 750 ms after the registration. *)
+Theorem C07_reaches_active_within_a_second : forall rg r svc now j,
+  NoDup (keys (rg_probing rg)) -> in_active rg r = false -> aget (p_name r) (rg_probing rg) = None -> j < 250 ->
+  let T := now + j in
+  let tr := run_ops (fst (is_probing_done rg r svc T)) (ticks [T; T + 250; T + 500; T + 750]) in
+  probe_times (p_name r) tr = [T; T + 250; T + 500] /\ activation_times (p_name r) tr = [T + 750] /\
+  T + 750 < now + 250 + 750.
+Proof. exact join_then_exact. Qed.
+
+(* SILENT UNTIL DONE, registry level: after any sequence of operations, is_probing_done says
+   "done" for a record only if the record's name was activated by an earlier probing pass. *)
+Theorem C07_silent_until_activated : forall ops r svc start,
+  snd (is_probing_done (final_reg reg_new ops) r svc start) = true ->
+  In (p_name r) (all_activations (run_ops reg_new ops)).
+Proof. exact silent_until_activated_proof. Qed.
+
+(* SILENT UNTIL DONE, daemon level: prepare_announce builds an announcement for a service that
+   requires probing only when its SRV, TXT and every address record of that interface and family
+   are active there; the packet then carries PTR, subtype PTR, SRV, TXT and those addresses as
+   answers. *)
+Theorem C07_announce_requires_active : forall s i rg v4 now js rg' m js',
+  prepare_announce s i rg v4 now js = (rg', Some m, js') ->
+  (s_probe s = false \/ Forall (fun r => in_active rg r = true) (announce_records rg s i v4)) /\
+  addrs_on_intf s i v4 <> [] /\
+  m = mkOut true [] (ptr_rrs s dns_other_ttl (resolve_name rg (s_full s))
+                     ++ map wire_rr (announce_records rg s i v4)) [] [].
+Proof. exact prepare_announce_some. Qed.
+
+(* ... and a query that arrives on an interface where no service is in the announced state is
+   not answered at all (handle_query's status guards), whatever it asks. *)
+Theorem C07_no_answer_unless_announced : forall st g now,
+  none_announced st (g_if g) -> snd (handle_query st g now) = [].
+Proof. exact handle_query_silent. Qed.
+
+(* The registry effect of a registration is a sequence of OJoin operations at start = now + j. *)
+Theorem C07_registration_is_joins : forall s now j recs rg,
+  s_probe s = true ->
+  fst (probe_records rg s (now + j) recs) = final_reg rg (map (fun r => (now, OJoin r (s_full s) j)) recs).
+Proof. exact probe_records_ops. Qed.
+
+(* The property text read literally - "announced only after three probe queries have gone out" -
+   is FALSE for schedules that are late: completion is measured from the probe's start, so a
+   daemon woken late announces after fewer probes.  Witness (run on the real daemon): one probe at
+   +145 ms, next iteration at +900 ms, announcement in that iteration. *)
+Theorem C07_three_probes_on_late_schedules_refuted :
+  busy (timeline w_late_ifs w_late_its) = [ (1000145, true, false, false); (1000900, false, true, false) ] /\
+  only_known 42 (self7 w_late_ifs w_late_its).
+Proof. exact w_late_refutes. Qed.
+
+(* "... with the proposed records in the authority section" is FALSE for a record that joins a
+   probe already in flight (second service on the same host name, registered 300 ms later). *)
+Theorem C07_record_joining_a_probe_refuted : only_known 44 (self7 w_join_ifs w_join_its).
+Proof. exact w_join_known. Qed.
+
+(* History level, full statement (validated on every generated history by running chk_C07 on the
+   model's own observation, NOT proved):
+     forall ifs its, well-formed history -> no VFail in chk_C07 g7_init (d_init ifs) its (model_obs (d_init ifs) its).
+   Proved for all histories: the probe spacing on the wire (C07_wire_probe_spacing).  Proved at the
+   level of the registry machine (all operation sequences) and of single daemon steps: the rest
+   above.  The remaining clauses of chk_C07 (three probes and the 250 ms wait before every
+   response, second announcement, requested wake-up) are not lifted to histories. *)
+
+(* Non-vacuity: a registration on the daemon model with jitter 145, woken exactly when asked:
+   probe queries at +145, +395, +645, announcements at +895 and +1895; chk_C07, chk_C08 and
+   chk_C09 accept the run. *)
+Example C07_exact_run :
+  busy (timeline w_exact_ifs w_exact_its) =
+  [ (1000145, true, false, false); (1000395, true, false, false); (1000645, true, false, false);
+    (1000895, false, true, false); (1001895, false, true, false) ] /\
+  self7 w_exact_ifs w_exact_its = [] /\ self8 w_exact_ifs w_exact_its = [] /\ self9 w_exact_ifs w_exact_its = [].
+Proof. exact w_exact_timeline. Qed.
 
 Print Assumptions C07_constants.
+Print Assumptions C07_probe_spacing_all_schedules.
+Print Assumptions C07_probe_times_250_apart.
+Print Assumptions C07_wire_probe_spacing.
+Print Assumptions C07_activation_needs_750.
+Print Assumptions C07_reachable_one_probe_per_name.
+Print Assumptions C07_three_probes_exact.
+Print Assumptions C07_three_probes_exact_full.
+Print Assumptions C07_reaches_active_within_a_second.
+Print Assumptions C07_silent_until_activated.
+Print Assumptions C07_announce_requires_active.
+Print Assumptions C07_no_answer_unless_announced.
+Print Assumptions C07_registration_is_joins.
+Print Assumptions C07_three_probes_on_late_schedules_refuted.
+Print Assumptions C07_record_joining_a_probe_refuted.
+Print Assumptions C07_exact_run.
